@@ -10,8 +10,9 @@ BASELINE_OFF = ("for m in $(cat /w/out/gomods.txt); do MF=$(cd /repo/$m && . /w/
 
 # id -> (technique, level text, level note, design ref)
 LEDGER_NOTE = ("Trusted: TLC, JSON bridge, the harness's read-only projection through exported state readers (no hook). "
-               "Amounts < 2^31. Staking methods, node registration / unfreeze; governance, roothash, vault and key-manager "
-               "methods are not generated yet.")
+               "Amounts < 2^31. Staking methods, node registration / unfreeze, runtime registration and governance-model "
+               "transitions, compute-role node updates, entity deregistration; governance proposals, roothash commits, vault and "
+               "key-manager methods are not generated yet.")
 
 CHECKS = {
     "C04": (
@@ -56,16 +57,21 @@ CHECKS = {
         "interchangeable keys (incl. rotations and exchanges of a node's own keys), every model transition executed by the real "
         "RegisterNode handler with NodeBySubKey compared for every key, and trace validation of key uniqueness, findability, "
         "index mirrors, claim mirrors and authority failures on real chains.",
-        LEDGER_NOTE + " No runtimes registered; consensus keys not rotated.", "DESIGN.md 4 C17"),
+        LEDGER_NOTE + " Consensus keys not rotated.", "DESIGN.md 4 C17"),
     "C14": (
-        "Election.tla (transcribed validator election) checked by TLC against the declarative rule for all small registries and "
-        "tie-breaks; real elections recorded by probe applications placed around the scheduler and validated by TLC "
+        "Election.tla (transcribed validator election) and Committee.tla (transcribed runtime committee election) checked by TLC "
+        "against the declarative rules for all small registries, descriptors, tie-breaks and permutations; real elections "
+        "(validators and committees) recorded by probe applications placed around the scheduler and validated by TLC "
         "(TraceElection.tla)",
         "TLC recomputes eligibility from the raw registry/staking records the election read (roles, expiration, freeze status, "
         "escrow vs. the thresholds of all stake claims) and checks membership, limits, stake order, power monotonicity and that the "
-        "validator updates turn the previous set into the elected one, for every election of seeded runs on real multiplexers "
-        "(epoch changes and post-slashing re-elections, binding validator-count and per-entity limits).",
-        LEDGER_NOTE + " Validator elections only (no runtime committees in the scenarios).", "DESIGN.md 4 C14"),
+        "validator updates turn the previous set into the elected one, and for every runtime committee: members eligible (role, "
+        "runtime version, expiry, freeze, suspension, entity stake, validator-set constraint), exact sizes or no committee, MaxNodes "
+        "per entity, MinPoolSize, no duplicates, no stale committee - for every election of seeded runs on real multiplexers "
+        "(epoch changes and post-slashing re-elections, binding validator-count and per-entity limits, tied stakes).",
+        LEDGER_NOTE + " Runtime committees: entropy (insecure-beacon) path only, no TEE runtimes, no VRF elections; the election input "
+        "is recorded before the scheduler's BeforeSchedule notification (roothash liveness processing is idle in the scenarios).",
+        "DESIGN.md 4 C14, R.9"),
     "C01": (
         "Replica.tla (proposal cache of the ABCI multiplexer) checked by TLC; TLC-emitted path-assignment rows drive seeded block "
         "histories on 4 real multiplexers (both backends, restarts from disk); recorded per-height results validated by TLC "
@@ -157,10 +163,12 @@ CHECKS = {
         "WriteLog.tla (coalesced log, apply, single corruptions) checked by TLC; TLC-enumerated cases replayed on real "
         "NodeDB.GetWriteLog and storage RootCache.Apply on badger and pathbadger with TLC's accept/reject verdict as oracle",
         "Exhaustive TLC check of the log algebra; every distinct (initial contents, batch, last op) case with every single "
-        "corruption of its log is executed against the real databases: the served log must reproduce r2, and Apply must persist "
-        "exactly when TLC says the corrupted log still yields the announced contents, leaving no root visible otherwise.",
-        "Trusted: TLC, JSON bridge, C02 (contents equality = root equality). GetWriteLog errors count as 'not served'. "
-        "Single corruptions only; small key/value universe.",
+        "corruption of its log, and every batch HISTORY over a two-key universe (remove / re-insert / remove inside one batch), is "
+        "executed against the real databases: the served log must reproduce r2, and Apply must persist exactly when TLC says the "
+        "corrupted log still yields the announced contents, leaving no root visible otherwise.",
+        "Trusted: TLC, JSON bridge, C02 (contents equality = root equality). GetWriteLog errors count as 'not served' and are "
+        "printed as OBSERVATION lines (pathbadger declines pairs whose batch rewrites a key with its old value). "
+        "Single corruptions only; small key/value universe; batch histories over two keys.",
         "DESIGN.md 4 C13"),
     "C02": (
         "TLC checks the transcribed insert/remove (MkvsTrie.tla) against the canonical trie of the contents for all histories; "
